@@ -15,7 +15,7 @@ contract is proved as `IterSpecTo … N`; `N = 2^63` suffices because `P2_thread
 That one running object behaves like the position-indexed abstraction (k-th call): PcProps/C18Closed2.lean.
 Only property theorems, non-vacuity examples and the axiom audit live here.
 -/
-import PcProofs.CloseIter3
+import PcProofs.CloseIterPrime
 import PcProps.C08P2
 
 namespace Pc.C08Closed
@@ -32,6 +32,19 @@ theorem real_iterator_meets_contract (e : Env) (he : GenSpec e) (hp hn : ℕ →
 /-- … in particular up to `2^63` with no hypothesis on primes (Bertrand) -/
 theorem real_iterator_meets_contract_two63 (e : Env) (he : GenSpec e) (hp hn : ℕ → ℕ) (hhn : ∀ n, hn n ≤ umax) :
     IterSpecTo (realIter e hp hn) two63 := realIter_specTo_two63 e he hp hn hhn
+
+/-- … and up to the LAST 64-bit prime `18446744073709551557 = 2^64 - 59` (proved prime by a Pratt certificate,
+    PcProofs/CloseIterPrime.lean): the largest honest bound — -/
+theorem real_iterator_meets_contract_max (e : Env) (he : GenSpec e) (hp hn : ℕ → ℕ) (hhn : ∀ n, hn n ≤ umax) :
+    IterSpecTo (realIter e hp hn) 18446744073709551557 := realIter_specTo_maxPrime64 e he hp hn hhn
+
+/-- — because one position further `generate_next_primes()` throws (no prime is left below 2^64; the adapter then has the empty
+    buffer): the contract up to `18446744073709551558`, a fortiori the unbounded `IterSpec`, is FALSE of the real iterator -/
+theorem real_iterator_contract_bound_is_sharp (e : Env) (he : GenSpec e) (hp hn : ℕ → ℕ) (hhn : ∀ n, hn n ≤ umax) :
+    ¬ IterSpecTo (realIter e hp hn) 18446744073709551558 ∧ ¬ IterSpec (realIter e hp hn) := by
+  have h0 : (realIter e hp hn).next 18446744073709551558 = [] :=
+    realIter_next_beyond e he hp hn hhn 18446744073709551558 (by decide) (by decide)
+  exact ⟨fun h => h.next_ne 18446744073709551558 (le_refl _) h0, fun h => h.next_ne 18446744073709551558 h0⟩
 
 /-- **`P2_OpenMP(x, y, a) = P2(x, a)` over the real iterator model** (`C08.P2_refines`, every other hypothesis verbatim) -/
 theorem P2_refines_real (e : Env) (he : GenSpec e) (hp hn : ℕ → ℕ) (hhn : ∀ n, hn n ≤ umax) {pi : ℕ → ℕ} {x y a : ℕ}
@@ -111,6 +124,8 @@ end Pc.C08Closed
 
 #print axioms Pc.C08Closed.real_iterator_meets_contract
 #print axioms Pc.C08Closed.real_iterator_meets_contract_two63
+#print axioms Pc.C08Closed.real_iterator_meets_contract_max
+#print axioms Pc.C08Closed.real_iterator_contract_bound_is_sharp
 #print axioms Pc.C08Closed.P2_refines_real
 #print axioms Pc.C08Closed.B_refines_real
 #print axioms Pc.C08Closed.pi_meissel_glue_real
